@@ -83,7 +83,7 @@ func NewBaseComponent(node *parser.MJMLNode, opts *options.RenderOpts) *BaseComp
 			classAttrs = make(map[string]string)
 			cssClassParts := make([]string, 0, len(classNames)) // pre-allocate with capacity
 			for _, className := range classNames {
-				if ca := globals.GetClassAttributes(className); ca != nil {
+				if ca := classAttributesFor(opts, className); ca != nil {
 					for k, v := range ca {
 						if k == "css-class" {
 							cssClassParts = append(cssClassParts, v)
@@ -179,7 +179,7 @@ func (bc *BaseComponent) GetAttributeFast(comp Component, name string) string {
 	}
 
 	// 3. Global attributes
-	if globalValue := globals.GetGlobalAttribute(comp.GetTagName(), name); globalValue != "" {
+	if globalValue := bc.getGlobalAttribute(comp.GetTagName(), name); globalValue != "" {
 		return normalizeAttributeValue(name, globalValue)
 	}
 
@@ -261,8 +261,20 @@ func (bc *BaseComponent) GetAttributeWithDefault(comp Component, name string) st
 
 // getGlobalAttribute gets a global attribute value from the global store
 func (bc *BaseComponent) getGlobalAttribute(componentName, attrName string) string {
-	// Access global attributes via globals package
+	// Prefer the store of the document being rendered; fall back to the
+	// process-wide instance for callers that did not provide one.
+	if bc.RenderOpts != nil && bc.RenderOpts.GlobalAttributes != nil {
+		return bc.RenderOpts.GlobalAttributes.GetGlobalAttribute(componentName, attrName)
+	}
 	return globals.GetGlobalAttribute(componentName, attrName)
+}
+
+// classAttributesFor returns the mj-class definition from the per-render store when available.
+func classAttributesFor(opts *options.RenderOpts, className string) map[string]string {
+	if opts != nil && opts.GlobalAttributes != nil {
+		return opts.GlobalAttributes.GetClassAttributes(className)
+	}
+	return globals.GetClassAttributes(className)
 }
 
 // getClassAttribute retrieves an attribute value from mj-class definitions if present
